@@ -7,7 +7,7 @@ VERIF = os.path.dirname(os.path.dirname(os.path.abspath(__file__)))
 wt = sys.argv[1]
 checks = [c["property_id"] for c in json.load(open(os.path.join(VERIF, "MANIFEST.json")))["checks"]]
 env = dict(os.environ, VERIF_REPO=wt)
-for patch in sys.argv[2:]:
+for patch in [os.path.abspath(x) for x in sys.argv[2:]]:
     subprocess.run(["git", "-C", wt, "checkout", "-q", "--", "."], check=True)
     r = subprocess.run(["git", "-C", wt, "apply", patch], capture_output=True, text=True)
     if r.returncode:
